@@ -1,6 +1,6 @@
 """C01 every loaded topology is well formed (structural necessary conditions of the load pipeline)."""
 from prog import *
-import pipe, filt, tab, oblig, setkind, effects, flags, linkfree
+import pipe, filt, tab, oblig, setkind, effects, flags, linkfree, union
 import props.C18 as c18
 import props.C02 as c02
 
@@ -26,12 +26,16 @@ def run(chk, tier):
     chk.floor("R-SETKIND", "kinded bitmap operations", ns, 110)
     chk.rule("R-LISTKIND", "the four child lists never confused")
     setkind.listkind(chk, P, ["topology.c"])
+    chk.rule("R-UNION", "the type-specific attribute union obj->attr is accessed only under a matching obj->type: every self-discriminating function is explored once per object type (21 values, product for two objects) by seeded constant propagation; guards are evaluated, not pattern-matched")
+    nun, nuf = union.run(chk, P, units=None)
+    chk.floor("R-UNION", "union accesses judged", nun, 150)
     chk.rule("R-LINKFREE", "an object handed to an insertion function (which links, merges-and-frees or frees it) is never released afterwards by its creator: no feasible path from an insertion of x to hwloc_free_unlinked_object(x) (may-dataflow + correlated-condition path search)")
     nlf = linkfree.run(chk, P)
     chk.floor("R-LINKFREE", "release sites", nlf, 14)
     chk.rule("R-FLAGS", "topology flag words of hwloc_topology_set_flags")
     flags.run(chk, P, "C01", effects=E)
-    chk.decided += ["the load pipeline establishes sets, levels, total memory, symmetric-subtree and group depths in dependency order on every success path",
+    chk.decided += ['type-specific attributes are accessed only under the matching object type in every self-discriminating function of the library',
+                    "the load pipeline establishes sets, levels, total memory, symmetric-subtree and group depths in dependency order on every success path",
                     "no object of a filtered-out type is present (creation sites) and the filter table itself is as specified", "special-level depth lookups agree with the type constants",
                     "gp_index values come from one generator", "allowed sets are clipped to the root sets; disallowed sets removed iff INCLUDE_DISALLOWED is unset"]
     chk.undecided += ["disjoint-union / inclusion algebra of cpusets and nodesets on a concrete tree", "sibling/cousin link consistency of a concrete tree",
